@@ -1,6 +1,6 @@
 """C18 — Numbers print, parse and round (structural clauses only)."""
 
-from ..rules import builtins, exceptions, tables
+from ..rules import builtins, exceptions, tables, textparse
 
 FAMILIES = set("number".split(","))
 PREFIXES = "_make_number_method|_number_to_base|js_round|_global_parse|_create_number_constructor|_create_math_object|_global_is".split("|")
@@ -20,4 +20,5 @@ def run(ctx, rep):
         implicit.rule_implicit_raisers(ctx, rep, "C18-R2", only=_in_family)
     exceptions.rule_catchable_classes(ctx, rep, "C18-R3", only_pred=_in_family, floor=1)
     builtins.rule_number_text_pitfalls(ctx, rep, "C18-R4")
+    textparse.rule_ascii_digit_scanners(ctx, rep, "C18-R5", modules=("context", "values"))
     rep.undecided += ["the method result tables over the argument grid (values, not shape): a runtime differential, outside static analysis"]
